@@ -529,11 +529,7 @@ class TemplateASTTransformer(ASTTransformer):
     def visit_ClassDef(self, node):
         if len(self.locals) > 1:
             self.locals[-1].add(node.name)
-        self.locals.append(_ClassScope())
-        try:
-            return ASTTransformer.visit_ClassDef(self, node)
-        finally:
-            self.locals.pop()
+        return self._visit_scope(node, _ClassScope())
 
     def visit_Import(self, node):
         if len(self.locals) > 1:
@@ -576,9 +572,10 @@ class TemplateASTTransformer(ASTTransformer):
             todo.extend(_ast.iter_child_nodes(node))
         return names
 
-    def _visit_function(self, node):
-        # Parameter defaults, decorators and annotations are evaluated in the
-        # enclosing scope; only the body sees the parameters as local names
+    def _visit_scope(self, node, names):
+        # Parameter defaults, decorators, annotations, base classes and class
+        # keywords are evaluated in the enclosing scope; only the body sees
+        # the given names as local
         def visit(value):
             if isinstance(value, list):
                 return [self.visit(x) for x in value]
@@ -590,15 +587,18 @@ class TemplateASTTransformer(ASTTransformer):
         for name in clone._fields:
             if name != 'body' and hasattr(node, name):
                 setattr(clone, name, visit(getattr(node, name)))
-        names = self._extract_names(node.args)
-        if isinstance(node.body, list):
-            names |= self._bound_names(node.body)
         self.locals.append(names)
         try:
             clone.body = visit(node.body)
         finally:
             self.locals.pop()
         return clone
+
+    def _visit_function(self, node):
+        names = self._extract_names(node.args)
+        if isinstance(node.body, list):
+            names |= self._bound_names(node.body)
+        return self._visit_scope(node, names)
 
     def visit_FunctionDef(self, node):
         if len(self.locals) > 1:
